@@ -1653,6 +1653,18 @@ def continue_guards_to_ifs(tree):
             while stack:
                 blk = stack.pop()
                 for i, st in enumerate(blk):
+                    # tail duplication: `if C: T; continue` followed by `R; T`  ->  `if not C: R` then `T` once
+                    if isinstance(st, ast.If) and not st.orelse and len(st.body) >= 2 and isinstance(st.body[-1], ast.Continue) \
+                            and blk is x.body and len(blk) - (i + 1) > len(st.body) - 1:
+                        k = len(st.body) - 1
+                        if [ast.dump(a) for a in st.body[:-1]] == [ast.dump(b) for b in blk[-k:]]:
+                            rest = blk[i + 1:-k]
+                            new = ast.If(test=negate(st.test), body=rest, orelse=[])
+                            ast.copy_location(new, st)
+                            blk[i:] = [ast.fix_missing_locations(new)] + blk[-k:]
+                            applied.append("continue-guard-tail")
+                            changed = True
+                            break
                     if isinstance(st, ast.If) and not st.orelse and len(st.body) == 1 and isinstance(st.body[0], ast.Continue) \
                             and i + 1 < len(blk):
                         new = ast.If(test=negate(st.test), body=blk[i + 1:], orelse=[])
@@ -1673,11 +1685,74 @@ def continue_guards_to_ifs(tree):
     return applied
 
 
+def _isinst(test):
+    """isinstance(x, T) / isinstance(x, (T1, T2)) / isinstance(x, T1) or isinstance(x, T2) -> (subject text, [type texts])"""
+    if isinstance(test, ast.BoolOp) and isinstance(test.op, ast.Or):
+        subj, types = None, []
+        for v in test.values:
+            r = _isinst(v)
+            if r is None or (subj is not None and r[0] != subj):
+                return None
+            subj = r[0]
+            types += r[1]
+        return subj, types
+    if isinstance(test, ast.Call) and isinstance(test.func, ast.Name) and test.func.id == "isinstance" and len(test.args) == 2:
+        t = test.args[1]
+        elts = t.elts if isinstance(t, ast.Tuple) else [t]
+        return ast.unparse(test.args[0]), [ast.unparse(e) for e in elts]
+    return None
+
+
+def hoisted_type_guards(tree):
+    """`if not isinstance(x, (A, B, C)): raise E` at the head of a dispatch whose last branch is a plain `else`
+         ->  the dispatch with `elif isinstance(x, <the types no branch tests>)` ... `else: raise E`
+    (after the guard the `else` is reached exactly by the remaining types)"""
+    applied = []
+    for fn in ast.walk(tree):
+        if not isinstance(fn, (ast.FunctionDef, ast.AsyncFunctionDef)):
+            continue
+        body = fn.body
+        for i in range(len(body) - 1):
+            g, ch = body[i], body[i + 1]
+            if not (isinstance(g, ast.If) and not g.orelse and isinstance(g.test, ast.UnaryOp) and isinstance(g.test.op, ast.Not)
+                    and g.body and isinstance(g.body[-1], ast.Raise) and isinstance(ch, ast.If)):
+                continue
+            gi = _isinst(g.test.operand)
+            if gi is None:
+                continue
+            subj, union = gi
+            tested, cur, ok = [], ch, True
+            while True:
+                ci = _isinst(cur.test)
+                if ci is None or ci[0] != subj:
+                    ok = False
+                    break
+                tested += ci[1]
+                if len(cur.orelse) == 1 and isinstance(cur.orelse[0], ast.If):
+                    cur = cur.orelse[0]
+                    continue
+                break
+            if not ok or not cur.orelse:
+                continue
+            rest = [t for t in union if t not in tested]
+            if not rest or any(t not in union for t in tested):
+                continue
+            tests = [ast.parse(f"isinstance({subj}, {t})", mode="eval").body for t in rest]
+            test = tests[0] if len(tests) == 1 else ast.BoolOp(op=ast.Or(), values=tests)
+            new = ast.If(test=test, body=cur.orelse, orelse=g.body)
+            ast.copy_location(new, cur)
+            cur.orelse = [ast.fix_missing_locations(new)]
+            del body[i]
+            applied.append("hoisted-type-guard")
+            break
+    return applied
+
+
 def normalise_idioms(tree):
     t = _Idioms()
     t.visit(tree)
     ast.fix_missing_locations(tree)
-    return t.applied + hoist_embedded_reads(tree) + ifexp_to_if(tree) + continue_guards_to_ifs(tree) + extend_to_appends(tree) + update_to_stores(tree) + drop_dead_containers(tree) + io_comprehensions_to_loops(tree) + loops_to_comprehensions(tree)
+    return t.applied + hoisted_type_guards(tree) + hoist_embedded_reads(tree) + ifexp_to_if(tree) + continue_guards_to_ifs(tree) + extend_to_appends(tree) + update_to_stores(tree) + drop_dead_containers(tree) + io_comprehensions_to_loops(tree) + loops_to_comprehensions(tree)
 
 
 def _literal(e):
@@ -1807,6 +1882,110 @@ def _new_constants(relpath, tree):
             if nm not in known and stores.get(nm, 0) == 1 and nm.upper() == nm:
                 consts[nm] = st
     return consts
+
+
+CALL_FACTS = {}          # callee simple name -> {"kw": set, "maxpos": int, "star": bool}; filled by model.Program
+
+
+def collect_call_facts(tree):
+    for c in ast.walk(tree):
+        if not isinstance(c, ast.Call):
+            continue
+        f = c.func
+        name = f.attr if isinstance(f, ast.Attribute) else (f.id if isinstance(f, ast.Name) else None)
+        if name is None:
+            continue
+        d = CALL_FACTS.setdefault(name, {"kw": set(), "maxpos": 0, "star": False})
+        d["maxpos"] = max(d["maxpos"], len([a for a in c.args if not isinstance(a, ast.Starred)]))
+        if any(isinstance(a, ast.Starred) for a in c.args) or any(k.arg is None for k in c.keywords):
+            d["star"] = True
+        d["kw"].update(k.arg for k in c.keywords if k.arg)
+        # functions handed to pool primitives / map are called with one positional argument
+        for a in c.args:
+            if isinstance(a, (ast.Name, ast.Attribute)):
+                n2 = a.attr if isinstance(a, ast.Attribute) else a.id
+                CALL_FACTS.setdefault(n2, {"kw": set(), "maxpos": 0, "star": False})
+                CALL_FACTS[n2]["maxpos"] = max(CALL_FACTS[n2]["maxpos"], 1)
+
+
+def default_unpassed_params(relpath, tree):
+    """a parameter with a default that the reference function does not have and that NO call in the package passes
+    (by keyword, by position, through * / **) holds its default in every execution the package performs: it is read
+    as a local bound to that default (`if p is None: p = E` as the first thing done with it becomes `p = E`).  The
+    interface extension itself is outside the properties, which are stated for the calls the package makes."""
+    ref = alpha.load_ref().get(relpath)
+    applied = []
+    if not ref:
+        return applied
+    for q, fn in alpha.functions_of(tree):
+        r = ref.get(q)
+        if r is None:
+            continue
+        a = fn.args
+        if a.vararg or a.kwarg or a.posonlyargs:
+            continue
+        pos = a.args
+        ndef = len(a.defaults)
+        name = q.split(".")[-1]
+        cname = q.split(".")[0] if name == "__init__" and "." in q else name
+        facts = [CALL_FACTS.get(cname)] if cname in CALL_FACTS else []
+        if name == "__init__":
+            facts.append(CALL_FACTS.get("__init__"))        # super().__init__(...)
+        facts = [f for f in facts if f]
+        offset = 1 if (pos and pos[0].arg in ("self", "cls")) else 0
+        drop = []
+        for k in range(len(pos) - 1, len(pos) - ndef - 1, -1):
+            p = pos[k]
+            if p.arg in r["params"]:
+                break               # only trailing new parameters (positions of the others are unchanged)
+            idx = k - offset
+            passed = any(p.arg in f["kw"] or f["star"] or f["maxpos"] > idx for f in facts)
+            if passed:
+                break
+            drop.append((k, p, a.defaults[k - (len(pos) - ndef)]))
+        kw_drop = []
+        for p, d in zip(list(a.kwonlyargs), list(a.kw_defaults)):
+            if d is not None and p.arg not in r["params"] and not any(p.arg in f["kw"] or f["star"] for f in facts):
+                kw_drop.append((p, d))
+        if not drop and not kw_drop:
+            continue
+        inits = []
+        for k, p, d in drop:
+            # the dropped parameters are a trailing run, taken from the end: always the last one
+            a.args.pop()
+            a.defaults.pop()
+            inits.append((p.arg, d))
+        for p, d in kw_drop:
+            i = a.kwonlyargs.index(p)
+            del a.kwonlyargs[i]
+            del a.kw_defaults[i]
+            inits.append((p.arg, d))
+        for pname, d in inits:
+            # `if p is None: p = E` (no else), the only store of p  ->  `p = E`
+            stores = [x for x in ast.walk(fn) if isinstance(x, ast.Name) and x.id == pname and isinstance(x.ctx, ast.Store)]
+            done = False
+            if isinstance(d, ast.Constant) and d.value is None and len(stores) == 1:
+                for parent in ast.walk(fn):
+                    for field in ("body", "orelse", "finalbody"):
+                        blk = getattr(parent, field, None)
+                        if not isinstance(blk, list):
+                            continue
+                        for i, st in enumerate(blk):
+                            if isinstance(st, ast.If) and not st.orelse and len(st.body) == 1 and isinstance(st.body[0], ast.Assign) \
+                                    and ast.unparse(st.test) == f"{pname} is None" and len(st.body[0].targets) == 1 \
+                                    and isinstance(st.body[0].targets[0], ast.Name) and st.body[0].targets[0].id == pname:
+                                earlier = [x for x in ast.walk(fn) if isinstance(x, ast.Name) and x.id == pname
+                                           and isinstance(x.ctx, ast.Load) and getattr(x, "lineno", 0) < st.lineno]
+                                if not earlier:
+                                    blk[i] = st.body[0]
+                                    done = True
+            if not done:
+                init = ast.Assign(targets=[ast.Name(id=pname, ctx=ast.Store())], value=d)
+                at = 1 if (fn.body and isinstance(fn.body[0], ast.Expr) and isinstance(fn.body[0].value, ast.Constant)) else 0
+                ast.copy_location(init, fn.body[0])
+                fn.body.insert(at, ast.fix_missing_locations(init))
+            applied.append((q, "unpassed-default", pname))
+    return applied
 
 
 def collect_new_constants(relpath, modname, tree):
